@@ -237,6 +237,10 @@ func ruleConfigFlag(c *Check, rule string, fa *FuncAn, exits []Exit, name string
 func runC10(w *World, c *Check) {
 	c.Rule("C10.gate", "a cached ticket is returned as valid only inside [StartTime, EndTime) or after a successful renewal inside RenewTill; ticket and key come from one entry", 4)
 	c.Rule("C10.pairing", "ticket, session key and validity times stored or returned together come from one reply; time arguments match parameter names", 10)
+	c.Rule("C10.result-names", "values handed back together (realm, auth/start/end/renew-till times, ticket, key) are bound to variables of their own names at every call site: no same-typed result slot is swapped", 20)
+	ruleResultNames(w, c, "C10.result-names")
+	c.Rule("C10.body-final", "the TGS-REQ body is complete before its checksum is taken: nothing writes the request body after the authenticator checksum over it was computed (RFC 4120 §5.5.1: the checksum covers the req-body that is sent)", 2)
+	ruleBodyFinal(w, c, "C10.body-final")
 	c.Rule("C10.referral", "referral recursion passes referral+1 and is bounded by a constant", 4)
 	c.Rule("C10.config", "configured lifetimes, enctypes, options and address policy reach the request (last store on every path); option numbers per RFC 4120 §5.4.1", 24)
 	c.Rule("C10.preauth", "PA-ENC-TIMESTAMP: usage 1, key for the negotiated etype, replaces an existing one; TGS-REQ authenticator checksum over the marshalled body with usage 6 under the session key", 9)
@@ -531,4 +535,95 @@ func substBack(fa *FuncAn, s string) string {
 		return s
 	}
 	return renameIdents(s, ren)
+}
+
+// ruleBodyFinal: the function that checksums the marshalled KDC-REQ-BODY (by role: it calls
+// KDCReqBody.Marshal and an etype's GetChecksumHash) and every function of package messages that
+// reaches it are "sealing" calls. In a function that makes a sealing call, no store into a
+// ReqBody field and no SetFlag/UnsetFlag on ReqBody options may be reachable after that call.
+func ruleBodyFinal(w *World, c *Check, rule string) {
+	sealing := map[*ssa.Function]bool{}
+	var msgFns []*ssa.Function
+	for _, fn := range w.ModuleFuncs() {
+		if fn.Pkg == nil || relPkg(fn.Pkg.Pkg.Path()) != "messages" {
+			continue
+		}
+		msgFns = append(msgFns, fn)
+		fa := NewFuncAn(w, fn)
+		if len(fa.Calls(`messages\.\(\*?KDCReqBody\)\.Marshal`)) > 0 && len(fa.Calls(`crypto/etype\.EType\.GetChecksumHash`)) > 0 {
+			sealing[fn] = true
+		}
+	}
+	if len(sealing) == 0 {
+		c.Fail(rule, "messages", "sealing-function", "-", "a function of package messages checksums the marshalled request body", "none found: the obligation cannot be anchored")
+		return
+	}
+	for changed := true; changed; {
+		changed = false
+		for _, fn := range msgFns {
+			if sealing[fn] {
+				continue
+			}
+			for _, b := range fn.Blocks {
+				for _, in := range b.Instrs {
+					if ci, ok := in.(ssa.CallInstruction); ok {
+						if g := ci.Common().StaticCallee(); g != nil && sealing[g] {
+							sealing[fn] = true
+							changed = true
+						}
+					}
+				}
+			}
+		}
+	}
+	for _, fn := range msgFns {
+		fa := NewFuncAn(w, fn)
+		for _, b := range fn.Blocks {
+			for i, in := range b.Instrs {
+				ci, ok := in.(ssa.CallInstruction)
+				if !ok {
+					continue
+				}
+				g := ci.Common().StaticCallee()
+				if g == nil || !sealing[g] {
+					continue
+				}
+				// instructions reachable after the sealing call
+				bad := ""
+				check := func(x ssa.Instruction) {
+					switch y := x.(type) {
+					case *ssa.Store:
+						if a := fa.R.R(y.Addr); strings.Contains(a, ".ReqBody") {
+							bad = "store to " + a + " at " + w.Pos(InstrPos(x))
+						}
+					case *ssa.Call:
+						n := fa.CalleeName(y)
+						if n == "types.SetFlag" || n == "types.UnsetFlag" {
+							if as := fa.CallArgs(y); len(as) > 0 && strings.Contains(as[0], "ReqBody") {
+								bad = n + "(" + as[0] + ", …) at " + w.Pos(InstrPos(x))
+							}
+						}
+					}
+				}
+				for _, x := range b.Instrs[i+1:] {
+					check(x)
+				}
+				seen := map[*ssa.BasicBlock]bool{}
+				st := append([]*ssa.BasicBlock{}, b.Succs...)
+				for len(st) > 0 {
+					nb := st[len(st)-1]
+					st = st[:len(st)-1]
+					if seen[nb] {
+						continue
+					}
+					seen[nb] = true
+					for _, x := range nb.Instrs {
+						check(x)
+					}
+					st = append(st, nb.Succs...)
+				}
+				c.Decide(bad == "", rule, FuncKey(fn), "after:"+strings.TrimPrefix(fa.CalleeName(ci), "messages."), w.Pos(InstrPos(in)), "the request body is not written after its checksum was computed", bad+": the body that is sent differs from the one the authenticator checksum covers")
+			}
+		}
+	}
 }
